@@ -30,6 +30,8 @@ pub const JOBS: &[&str] = &[
     "side_input",
     "fold_assoc",
     "keyed_chain",
+    "count_sink",
+    "set_sink",
 ];
 
 fn get1<T: Send + 'static>(o: StreamOutput<Vec<T>>, f: impl Fn(T) -> Vec<i64> + Send + 'static) -> Getter {
@@ -45,6 +47,8 @@ pub struct Fault {
     pub counter: Arc<AtomicI64>,
     /// host id of the replica in which the fault fired (-1 = not fired)
     pub fired_host: Arc<AtomicI64>,
+    pub fired_block: Arc<AtomicI64>,
+    pub fired_replica: Arc<AtomicI64>,
 }
 
 impl Fault {
@@ -54,6 +58,8 @@ impl Fault {
             at,
             counter: Arc::new(AtomicI64::new(0)),
             fired_host: Arc::new(AtomicI64::new(-1)),
+            fired_block: Arc::new(AtomicI64::new(-1)),
+            fired_replica: Arc::new(AtomicI64::new(-1)),
         }
     }
 }
@@ -63,8 +69,10 @@ impl Fault {
 fn tick(f: &Option<Fault>, stage: usize) {
     if let Some(f) = f {
         if f.stage == stage && f.counter.fetch_add(1, Ordering::SeqCst) == f.at {
-            let h = renoir::verif::replica_coord().map(|c| c.host_id as i64).unwrap_or(-2);
-            f.fired_host.store(h, Ordering::SeqCst);
+            let c = renoir::verif::replica_coord();
+            f.fired_host.store(c.map(|c| c.host_id as i64).unwrap_or(-2), Ordering::SeqCst);
+            f.fired_block.store(c.map(|c| c.block_id as i64).unwrap_or(-2), Ordering::SeqCst);
+            f.fired_replica.store(c.map(|c| c.replica_id as i64).unwrap_or(-2), Ordering::SeqCst);
             panic!("injected fault at stage {stage}");
         }
     }
@@ -83,6 +91,8 @@ pub fn stages(job: &str) -> usize {
         "multi_sink" => 2,
         "fold_assoc" => 2,
         "keyed_chain" => 3,
+        "count_sink" => 1,
+        "set_sink" => 2,
         _ => 1,
     }
 }
@@ -330,6 +340,37 @@ pub fn build(ctx: &StreamContext, job: &str, n: i64, bm: BatchMode, fault: Optio
                 .collect_vec();
             vec![get1(o, |(k, v)| vec![k, v])]
         }
+        "count_sink" => {
+            // `collect_count` (fold + CollectCountSink)
+            let f1 = f.clone();
+            let o = ctx
+                .stream_par_iter(0..n)
+                .batch_mode(bm)
+                .shuffle()
+                .filter(move |x| {
+                    tick(&f1, 0);
+                    x % 3 != 0
+                })
+                .collect_count();
+            vec![Box::new(move || o.get().map(|c| vec![vec![c as i64]]))]
+        }
+        "set_sink" => {
+            // `collect::<C>` (the generic Collect sink) behind a keyed reduce
+            let (f1, f2) = (f.clone(), f.clone());
+            let o = ctx
+                .stream_par_iter(0..n)
+                .batch_mode(bm)
+                .group_by(move |x| {
+                    tick(&f1, 0);
+                    x % 6
+                })
+                .reduce(move |a, b| {
+                    tick(&f2, 1);
+                    *a += b
+                })
+                .collect::<std::collections::BTreeSet<(i64, i64)>>();
+            vec![Box::new(move || o.get().map(|s| s.into_iter().map(|(k, v)| vec![k, v]).collect()))]
+        }
         _ => panic!("unknown job {job}"),
     }
 }
@@ -476,6 +517,34 @@ pub fn run_job(job: &str, n: i64, bm: &str, cfg: &Cfg, fault: Option<Fault>, uni
 }
 
 pub fn is_infra(msg: &str) -> bool {
+    // only start-up problems of the in-process multi-host rig: the listening socket cannot be
+    // bound. Everything else (connect failures after the retry budget, disconnections during the
+    // run, …) is the engine's behaviour and is reported.
     let m = msg.to_lowercase();
-    m.contains("bind") || m.contains("address") || m.contains("connect") || m.contains("refused")
+    m.contains("failed to bind") || m.contains("address already in use") || m.contains("address in use")
+}
+
+
+/// Hosts that run a replica (transitively) downstream of `(block, host, replica)`, including the
+/// replica's own host: computed from the execution graph of the same job/config (built with the
+/// `verif` hook, nothing is executed).
+pub fn downstream_hosts(job: &str, n: i64, bm: &str, cfg: &Cfg, from: (u64, u64, u64)) -> Vec<u64> {
+    let config = host_configs(cfg, 9_999_999).into_iter().next().unwrap();
+    let ctx = StreamContext::new(config);
+    let _getters = build(&ctx, job, n, parse_bm(bm), None);
+    let g = ctx.verif_execution_graph();
+    let mut seen = std::collections::BTreeSet::new();
+    let mut todo = vec![from];
+    while let Some(c) = todo.pop() {
+        if !seen.insert(c) {
+            continue;
+        }
+        for (f, t, _fragile) in &g.links {
+            if (f.block_id, f.host_id, f.replica_id) == c {
+                todo.push((t.block_id, t.host_id, t.replica_id));
+            }
+        }
+    }
+    let hosts: std::collections::BTreeSet<u64> = seen.iter().map(|c| c.1).collect();
+    hosts.into_iter().collect()
 }
